@@ -124,7 +124,7 @@ def generate(rng, tier):
         table["nt"] = True
     ops = []
     live = set()
-    for _ in range(rng.randint(10, 30)):
+    for _ in range(rng.randint(10, 30 if tier == "quick" else 60)):
         r = rng.random()
         if r < 0.16:
             ops.append({"op": "render", "no_color": rng.random() < 0.3, "how": rng.choice(["str", "lines"])})
